@@ -1,4 +1,6 @@
-Require Import Model.Base Corr.Common Corr.Draw.
+Require Import Model.Base Corr.Common Corr.Draw Corr.L2 Corr.DrawL.
 Definition oracle (v : verdict) : bool := v_results_ok v && v_writes v.
-Definition check (x : pcase * pout) : Z := code (corr_exact (fst x) (snd x)) (oracle (verdict_of x)).
-Definition model_out := Corr.Draw.model_out.
+(* below the real transports: the final picture (no pixel dropped, duplicated or recoloured on the way to the pins) *)
+Definition oracle2 (v : verdict) : bool := v_results_ok v && v_picture v && v_no_anomaly v.
+Definition check := check_with oracle oracle2.
+Definition model_out := Corr.DrawL.model_out.
